@@ -281,12 +281,29 @@ theorem submit_announces (b : Broker) (orc : Oracle) (o : Ord) (inAuction : Bool
   · simp only [hm, if_true]; exact ⟨_, rfl⟩
   · simp only [hm]; exact ⟨[], rfl⟩
 
-/-- `cancel_order` as coded leaves the order in the AUCTION book (finding F4: under `next_bar` matching the next match
+/-- `cancel_order` on a final order does nothing: no event, no change of the books (repair of finding F23) -/
+theorem cancel_final_noop (b : Broker) (o : Ord) (h : o.isFinal = true) : b.cancel o = (b, []) := by
+  simp only [Broker.cancel, h, if_true]
+
+/-- `cancel_order` of a live order announces PENDING_CANCEL then CANCELLATION_PASS and removes it from the regular book -/
+theorem cancel_live (b : Broker) (o : Ord) (h : o.isFinal = false) :
+    (b.cancel o).2 = [OEvent.pendingCancel o.id, OEvent.cancellationPass o.id] ∧
+    ∀ x ∈ (b.cancel o).1.openOrders, x.id ≠ o.id := by
+  unfold Broker.cancel
+  rw [h]
+  refine ⟨rfl, ?_⟩
+  intro x hx
+  simp only [Bool.false_eq_true, if_false] at hx
+  rw [List.mem_filter] at hx
+  simpa using hx.2
+
+/-- … but as coded it leaves a live order in the AUCTION book (finding F4: under `next_bar` matching the next match
 round announces the cancellation a second time and the reserve is released twice) -/
-theorem cancel_leaves_auction_book (b : Broker) (o : Ord) (hmem : o ∈ b.auctionOrders) :
-    ∃ x ∈ (b.cancel o.id).1.auctionOrders, x.id = o.id := by
+theorem cancel_leaves_auction_book (b : Broker) (o : Ord) (hmem : o ∈ b.auctionOrders) (hnf : o.isFinal = false) :
+    ∃ x ∈ (b.cancel o).1.auctionOrders, x.id = o.id := by
+  simp only [Broker.cancel, hnf, Bool.false_eq_true, if_false]
   refine ⟨o.markCancelled, ?_, markCancelled_id o⟩
-  simp only [Broker.cancel, List.mem_map]
+  rw [List.mem_map]
   exact ⟨o, hmem, by simp⟩
 
 /-- non-vacuity: partial fills 300 @ 10 and 700 @ 10.5 of an order for 1000 -/
